@@ -9,7 +9,7 @@ BATCH = 1500
 RULE = ("op sequences (load / loadres / clear / clearres) over flow, isolation, hotspot, circuit breaker, system, outlier; rule lists mix valid rules "
         "(boundary thresholds), one invalid rule per IsValidRule clause, nil elements, a small slice of foreign-resource and unbuildable rules, "
         "verbatim reloads, reloads that duplicate an identical rule or drop one of two duplicates, and reloads with exactly one field of one rule changed (every field of every record, both load paths; also as a fixed "
-        "systematic corpus); after every state op the return class, GetRules/GetRulesOfResource, the identity classes of the controller objects in force (ctrlids) and probe traffic (flow, isolation, breaker, system) "
+        "systematic corpus); after every state op the return class, GetRules/GetRulesOfResource, the identity classes of the controller objects in force (ctrlids) and probe traffic (single requests and, for flow, short same-instant request sequences) (flow, isolation, breaker, system) "
         "on the touched resources are compared; fresh rule objects per load; non-trivial = some load that changed state contained an invalid or nil "
         "rule and probes returned both pass and block; distinct by (module, op kind, rule-kind) sequence")
 
@@ -223,6 +223,9 @@ def observe(rng, mod, touched, everything=False):
         if mod == "flow":
             for b in ([1, 2, 3] if everything else rng.sample([1, 1, 2, 3, 11], 2)):
                 ops.append(f"probe flow {res} {b}")
+            seqs = ["1 1 1 1", "2 1", "3 1", "100 1", "1 1 1 1 1 1 1", "10 1 1", "50 50 1", "200 1"]
+            for q in (seqs[:6] if everything else rng.sample(seqs, 2)):
+                ops.append(f"probeseq flow {res} {q}")
         elif mod == "iso":
             for b in ([1, 2, 3, 4] if everything else rng.sample([1, 2, 3, 4, 11], 2)):
                 ops.append(f"probe iso {res} {b}")
@@ -353,6 +356,27 @@ def dup_corpus():
     return cases
 
 
+def replace_corpus():
+    """X -> Y for every ordered pair of base rule shapes (same resource, same statistic interval), both load paths:
+    the controller of Y must behave like a fresh one whatever X left behind (statistic, pacer, breaker)"""
+    cases = []
+    bases = _bases()
+    flow = bases["flow"] + [dict(bases["flow"][0], cb=1, th2=2, maxQ=0)]
+    shapes = {"flow": [dict(x, st=st) for st in (0, 1000) for x in flow if x["rel"] == 0] + [x for x in flow if x["rel"] == 1],
+              "hot": bases["hot"], "cb": bases["cb"]}
+    for mod, lst in shapes.items():
+        for i, X in enumerate(lst):
+            for j, Y in enumerate(lst):
+                if i == j or (mod == "flow" and X["st"] != Y["st"]):
+                    continue
+                res = X["res"]
+                for path in ("load", "loadres"):
+                    ops = [load_op(mod, path, res, [dict(X)])] + observe(None, mod, [res], everything=True)
+                    ops += [load_op(mod, path, res, [dict(Y)])] + observe(None, mod, [res], everything=True)
+                    cases.append(Case(f"repl-{mod}{i}-{j}-{path}", ops, tags=("corpus", "replace")))
+    return cases
+
+
 def delta_corpus():
     cases = []
     for mod, bases in _bases().items():
@@ -397,7 +421,7 @@ def corpus():
     for p in sorted(glob.glob(os.path.join(ROOT, "corpus", PROP, "*.ops"))):
         ops = [l.rstrip("\n") for l in open(p) if l.strip() and not l.startswith("#") and not l.startswith("case ")]
         res.append(Case(os.path.basename(p), ops, tags=("corpus",)))
-    return res + dup_corpus() + delta_corpus()
+    return res + dup_corpus() + replace_corpus() + delta_corpus()
 
 
 def densify(ops, rng):
